@@ -78,18 +78,17 @@ def is_occupied_rule(ctx: Ctx, rule: str) -> None:
                not shape_bad, {"rows": texts}, shape_bad)
     ctx.record(rule + "t", "GUARD", fref, "the re-entrancy is bounded by the tries not yet spent (min(re-entrancy, max_tries - finished results)) unless it was raised above max_tries",
                not left_bad and not shape_bad, {"rows": texts}, left_bad or shape_bad)
-    # is_started reads the markers of the node and of every bridged copy
+    # is_started reads the markers of the node and of every bridged copy (set of contributions, any loop shape)
+    from . import atoms as A
+
     fref2 = f"{NODE}:TestNode.shared_started_workers"
     fn2 = ctx.repo.func(fref2)
     ctx.touch(fref2)
-    loops = [l for l in ast.walk(fn2.node) if isinstance(l, ast.For) and ast.unparse(l.iter) == "self.bridged_nodes"]
-    adds = [c for c in calls_in(fn2.node) if call_name(c) == "add"]
-    added = sorted(ast.unparse(c.args[0]) for c in adds if c.args)
-    ok2 = len(loops) == 1 and isinstance(loops[0].target, ast.Name) and \
-        added == sorted(["self.started_worker", f"{loops[0].target.id}.started_worker"])
-    # both adds only guarded by "is not None"
+    got, odd = A.contributions(fn2.node)
+    want = A.VIEWS[fref2][0]
+    ok2 = got == want and not odd
     ctx.record(rule + "b", "PROV", fref2, "shared_started_workers = markers of this node and of every bridged node", ok2,
-               {"added": added}, "" if ok2 else "the set of starting workers no longer covers the node and all its bridged copies")
+               {"contributions": sorted(map(str, got))}, "" if ok2 else "the set of starting workers no longer covers the node and all its bridged copies")
     fs = ctx.repo.func(f"{NODE}:TestNode.is_started")
     reads = {n.attr for n in ast.walk(fs.node) if isinstance(n, ast.Attribute) and isinstance(n.value, ast.Name) and n.value.id == "self"}
     ok3 = "shared_started_workers" in reads and "started_worker" not in reads
